@@ -38,6 +38,8 @@ def gvoronoi(labeled):
                 `segmented[y,x]` is the label of the object at position `y,x`.
     '''
     labeled = np.ascontiguousarray(labeled)
+    if labeled.size == 0:
+        return labeled.copy()
     bw = (labeled == 0)
     f = np.zeros(bw.shape, np.double)
     f[bw] = len(f.shape)*max(f.shape)**2+1
